@@ -248,6 +248,7 @@ func Structs(dir string) (map[string][]StructField, error) {
 }
 
 type structInfo struct {
+	tname  *ast.Ident
 	name   string
 	fields []StructField
 	vars   []*types.Var
@@ -274,7 +275,7 @@ func (st *state) structs() []*structInfo {
 					if !ok {
 						continue
 					}
-					si := &structInfo{name: p.Types.Name() + "." + ts.Name.Name, pkg: p}
+					si := &structInfo{name: p.Types.Name() + "." + ts.Name.Name, pkg: p, tname: ts.Name}
 					for _, fl := range stt.Fields.List {
 						if len(fl.Names) == 0 {
 							// embedded: the type name is the field name
@@ -501,8 +502,95 @@ func Normalise(dir string, overlay map[string][]byte, inv map[string]string, src
 		var edits []edit
 		var note string
 		var subject string
+		// unexported struct types: a confirmed type that is gone and exactly one unknown
+		// type of the same package with the same fields (its own name aside) - a rename
+		{
+			cur := st.structs()
+			have := map[string]bool{}
+			for _, si := range cur {
+				have[si.name] = true
+			}
+			selfless := func(fs []StructField, own string) string {
+				var b strings.Builder
+				for _, f := range fs {
+					t := f.Type
+					// the type's own (package-qualified or bare) name inside field types
+					t = strings.ReplaceAll(t, "."+own+"[", ".\x00[")
+					t = strings.ReplaceAll(t, "."+own+" ", ".\x00 ")
+					if strings.HasSuffix(t, "."+own) {
+						t = strings.TrimSuffix(t, own) + "\x00"
+					}
+					b.WriteString(f.Name + " " + t + ";")
+				}
+				return b.String()
+			}
+			for _, si := range cur {
+				if edits != nil {
+					break
+				}
+				if _, known := structs[si.name]; known || skip["type:"+si.name] != "" {
+					continue
+				}
+				own := si.name[strings.Index(si.name, ".")+1:]
+				if ast.IsExported(own) {
+					continue
+				}
+				var cands []string
+				for cname, cf := range structs {
+					if have[cname] || pkgOf(cname) != pkgOf(si.name) {
+						continue
+					}
+					cown := cname[strings.Index(cname, ".")+1:]
+					if selfless(cf, cown) == selfless(si.fields, own) {
+						cands = append(cands, cname)
+					}
+				}
+				if len(cands) != 1 {
+					continue
+				}
+				// no other unknown type may claim it
+				claim := 0
+				cown := cands[0][strings.Index(cands[0], ".")+1:]
+				for _, o := range cur {
+					if _, known := structs[o.name]; known || pkgOf(o.name) != pkgOf(si.name) {
+						continue
+					}
+					oown := o.name[strings.Index(o.name, ".")+1:]
+					if selfless(structs[cands[0]], cown) == selfless(o.fields, oown) {
+						claim++
+					}
+				}
+				if claim != 1 {
+					continue
+				}
+				obj := si.pkg.TypesInfo.Defs[si.tname]
+				if obj == nil || si.pkg.Types.Scope().Lookup(cown) != nil {
+					skip["type:"+si.name] = "name taken"
+					continue
+				}
+				var es []edit
+				for _, p := range st.pkgs {
+					for id, o := range p.TypesInfo.Defs {
+						if o == obj {
+							es = append(es, edit{st.fileName(id.Pos()), st.offset(id.Pos()), st.offset(id.End()), cown})
+						}
+					}
+					for id, o := range p.TypesInfo.Uses {
+						if o == obj {
+							es = append(es, edit{st.fileName(id.Pos()), st.offset(id.Pos()), st.offset(id.End()), cown})
+						}
+					}
+				}
+				edits = es
+				note = fmt.Sprintf("renamed the type %s back to %s (same package, same fields; %s is gone)", si.name, cown, cands[0])
+				subject = "type:" + si.name
+			}
+		}
 		// unexported struct fields: back to the confirmed names
 		for _, si := range st.structs() {
+			if edits != nil {
+				break
+			}
 			want, ok := structs[si.name]
 			if !ok || skip["fields:"+si.name] != "" {
 				continue
@@ -1592,6 +1680,9 @@ func hasUnknown(dir string, overlay map[string][]byte, inv map[string]string, sr
 					}
 					want, ok := structs[f.Name.Name+"."+ts.Name.Name]
 					if !ok {
+						if !ast.IsExported(ts.Name.Name) && len(structs) > 0 {
+							found = true // perhaps a renamed type: let the typed pass look
+						}
 						continue
 					}
 					var names []string
